@@ -796,6 +796,22 @@ impl Real {
     }
 
     /// Execute one protocol line on the real objects; the answer has the model driver's format.
+    /// Error canonicalisation (BUILDING.md), rule 2. commit / complete_commit / complete_abort / force_resolve
+    /// report every refusal (unknown transaction, wrong phase, a non-YES vote) as the ONE variant
+    /// `ChainError::TransactionFailed(String)`; a refusal changes nothing (the dump is compared after every
+    /// event) and the C03 monitors only use accepted / refused, so the COMPARED token is decided by the variant:
+    /// `err refused` (`collapse_end_refusal` maps the model's `err not_found` / `err wrong_phase` to it). What the
+    /// message says is read only for the coverage tags `<op>.not_found` / `<op>.wrong_phase`.
+    fn end_refused(&mut self, op: &str, e: &tensor_chain::ChainError) -> String {
+        match e {
+            tensor_chain::ChainError::TransactionFailed(m) => {
+                self.hits.push(format!("{op}.{}", if m.contains("not found") { "not_found" } else if m.contains("phase") || m.contains("cannot be committed") { "wrong_phase" } else { "refused_unclassified" }));
+                END_REFUSED.into()
+            },
+            other => format!("err:{}", format!("{other:?}").chars().take_while(|c| c.is_alphanumeric()).collect::<String>()),
+        }
+    }
+
     fn exec(&mut self, line: &str) -> String {
         let w: Vec<&str> = line.split_whitespace().collect();
         let from = self.pool.len();
@@ -1060,13 +1076,7 @@ impl Real {
                         }
                         "ok".into()
                     },
-                    Err(e) => {
-                        if e.to_string().contains("not found") {
-                            "err not_found".into()
-                        } else {
-                            "err wrong_phase".into()
-                        }
-                    },
+                    Err(e) => self.end_refused("ccommit", &e),
                 }
             },
             ["cabort", tx] => {
@@ -1187,8 +1197,7 @@ impl Real {
                         }
                         "ok".into()
                     },
-                    Err(e) if e.to_string().contains("not found") => "err not_found".into(),
-                    Err(_) => "err wrong_phase".into(),
+                    Err(e) => self.end_refused(w[0], &e),
                 }
             },
             // ---- coordinator restarts (Restart.lean): save_to_store / crash + load_from_store
@@ -1271,8 +1280,7 @@ impl Real {
                         }
                         "ok".into()
                     },
-                    Err(e) if e.to_string().contains("not found") => "err not_found".into(),
-                    Err(_) => "err wrong_phase".into(),
+                    Err(e) => self.end_refused("cforce", &e),
                 }
             },
             // a vote that no participant produced joins the pool (mis-tagged / mis-routed / forged response)
@@ -1482,6 +1490,22 @@ fn tag_of(line: &str, ans: &str, real: &Real) -> String {
     }
 }
 
+/// the one compared token for a refused commit / complete_* / force_resolve (see `Real::end_refused`)
+const END_REFUSED: &str = "err refused";
+fn collapse_end_refusal(line: &str, model_answer: &str) -> String {
+    let op = line.split_whitespace().next().unwrap_or("");
+    if matches!(op, "ccommit" | "ccomplete_commit" | "ccomplete_abort" | "cforce") {
+        for fine in ["err not_found", "err wrong_phase"] {
+            if let Some(rest) = model_answer.strip_prefix(fine) {
+                if rest.is_empty() || rest.starts_with(' ') {
+                    return format!("{END_REFUSED}{rest}");
+                }
+            }
+        }
+    }
+    model_answer.to_string()
+}
+
 /// Runs `lines` on a fresh real system and a fresh model; compares every answer and every dump.
 /// `in_quantifier = false`: monitor hits are returned as observations, never as violations.
 fn run_script(m: &mut Model, rep: &mut Report, stream: &str, setup: &Setup, lines: &[String], in_quantifier: bool) -> Outcome {
@@ -1526,7 +1550,7 @@ fn run_script(m: &mut Model, rep: &mut Report, stream: &str, setup: &Setup, line
             }
         }
         if model_ok {
-            let mut ma_cmp = ma.clone();
+            let mut ma_cmp = collapse_end_refusal(line, &ma);
             if outside || cleanup_noop {
                 ma_cmp = ma_cmp.replace(" !outside", "");
             }
